@@ -75,6 +75,8 @@ def _worker_run(spec):
         res = dict(error="%s: %s" % (type(ex).__name__, str(ex)[:300]), trace=traceback.format_exc()[-1500:])
     res["spec"] = spec
     res["wall"] = round(time.time() - t0, 3)
+    import gc
+    gc.collect()
     return res
 
 
@@ -119,7 +121,7 @@ def run_jobs(check_module, jobs, nproc=None, progress=False, job_timeout=None):
     (a solver call that ignores its timeout) is killed and reported as a harness error instead of hanging the check."""
     from multiprocessing.connection import wait as mpwait
     nproc = nproc or int(os.environ.get("VERIF_NPROC", "16"))
-    job_timeout = job_timeout or int(os.environ.get("VERIF_JOB_TIMEOUT", "300" if tier() == "quick" else "1500"))
+    job_timeout = job_timeout or int(os.environ.get("VERIF_JOB_TIMEOUT", "150" if tier() == "quick" else "1500"))
     by_backend = {}
     for j in jobs:
         by_backend.setdefault(j.get("backend", "snarkjs"), []).append(j)
